@@ -3,8 +3,8 @@
 (* Extension X01 of C01 / C03: the calls of the frame codecs the base      *)
 (* modules CobsEnc / CobsDec leave out.                                    *)
 (*                                                                         *)
-(* Encoder side (Mode = "enc": bare encoder with a room schedule;          *)
-(*               Mode = "arr": the array path mpt_array_push/encode_array  *)
+(* Encoder side (mode = "enc": bare encoder with a room schedule;          *)
+(*               mode = "arr": the array path mpt_array_push/encode_array  *)
 (*               whose room is managed by the library while a reader       *)
 (*               consumes finished bytes):                                 *)
 (*   - sessions of several messages in one output (NextMsg),               *)
@@ -25,8 +25,8 @@
 (* return value?) Tier 1 allows every answer that leaves the output as it  *)
 (* was (DeleteOK).                                                         *)
 (*                                                                         *)
-(* Decoder side (Mode = "dec"; the decoder design of CobsDec is            *)
-(* instantiated as D):                                                     *)
+(* Decoder side (mode = "dec", and "size" for longer frames on a single    *)
+(* schedule; the decoder design of CobsDec is instantiated as D):          *)
 (*   - SizeQuery(n): source = 0, sourcelen = n: must return at least the   *)
 (*     length of the message the reference decoder reads from the current  *)
 (*     frame when that frame ends within the next n unread bytes (SizeOK), *)
@@ -37,19 +37,25 @@
 (***************************************************************************)
 EXTENDS CobsEnc, Integers
 
-CONSTANTS Mode,       \* "enc" | "arr" | "dec"
-          MaxMsgs,    \* messages started per session
+CONSTANTS Modes,      \* parts explored: subset of {"enc", "arr", "dec", "size"} (one per behaviour, see Init)
+          KindsE, KindsA, KindsD,   \* framings of the encoder sessions / the array path / the decoder
+          MaxMsgs,    \* messages started per session ("enc")
+          MaxMsgsA,   \* the same for the array path
           DelKs,      \* arguments of Delete
           Shifts,     \* arguments of Shift (arr)
           NextSet,    \* messages a session goes on with
+          NextSetA,   \* the same for the array path
           DMaxLen, DSlacks, DGrants,   \* decoder: longest stream, initial slack, grant sizes
           DStreams,   \* byte streams handed to the decoder
           DFeeds,     \* feed sizes
           DQs,        \* size query arguments
           DMis,       \* message start address parities explored
-          DOps        \* subset of {"peek", "reset", "size"}: calls explored besides feed / call / grant
+          DOps,       \* subset of {"peek", "reset", "size"}: calls explored besides feed / call / grant
+          SStreams,   \* part "size": longer frames of short blocks, fed byte by byte on one schedule,
+          SQs         \*   with size queries (arguments SQs) at every point
 
-VARIABLES sess,       \* finished messages in front of the current one (survivors)
+VARIABLES mode,       \* the part this behaviour belongs to
+          sess,       \* finished messages in front of the current one (survivors)
           marks,      \* end offset of each of their frames in out
           cons,       \* bytes of out the reader has taken (arr)
           left,       \* message starts left
@@ -61,7 +67,7 @@ D == INSTANCE CobsDec WITH code <- dcode, MaxLen <- DMaxLen, Slacks <- DSlacks, 
 xvars == <<sess, marks, cons, left>>
 evars == <<msg, acc, out, run, code, cap, pre, st, sess, marks, cons, left>>
 dvars == <<stream, fedn, fs, lost, reg, curr, pos, dlen, dmsg, dcode, cpos, last>>
-allvars == <<K, obs, evars, dvars>>
+allvars == <<mode, K, obs, evars, dvars>>
 
 ---------------------------------------------------------------------------
 (* Text framings with an arbitrary delimiter and the raw path.             *)
@@ -142,7 +148,7 @@ FinMarks == IF st = "done" THEN Append(marks, Len(out)) ELSE marks
 FinEnd   == IF st = "done" THEN Len(out) ELSE pre
 InProg   == st \in {"run", "dead"} /\ (code > 0 \/ Len(out) > pre)      \* encoder context says: message in progress
 Data     == SubSeq(out, cons + 1, Len(out))                             \* what the reader still finds (arr)
-Path     == IF Mode = "arr" THEN "array" ELSE "direct"
+Path     == IF mode = "arr" THEN "array" ELSE "direct"
 
 XAnswer(a, arg, exp) == obs' = [a |-> a, arg |-> arg, exp |-> exp]
 Same == UNCHANGED <<K, msg, acc, out, run, code, cap, pre, st>>
@@ -197,7 +203,7 @@ XTerm ==
   /\ IF IsText(K) THEN TermT ELSE IF IsRaw(K) THEN TermR ELSE Term
   /\ UNCHANGED xvars
 
-XGrow(g) == Mode = "enc" /\ Grow(g) /\ UNCHANGED xvars
+XGrow(g) == mode = "enc" /\ Grow(g) /\ UNCHANGED xvars
 
 \* the caller starts the next message behind a finished (or deleted) one
 NextMsg(m) ==
@@ -236,26 +242,26 @@ Delete(k) ==
 
 \* encode_array::shift(n): the reader takes n finished bytes
 Shift(n) ==
-  /\ Mode = "arr" /\ n \in 1..(Len(out) - cons)
+  /\ mode = "arr" /\ n \in 1..(Len(out) - cons)
   /\ cons' = cons + n
   /\ UNCHANGED <<K, msg, acc, out, run, code, cap, pre, st, sess, marks, left>>
   /\ XAnswer("shift", [n |-> n], [ret |-> "ok", data |-> SubSeq(out, cons + n + 1, Len(out))])
 \* shift(0) moves the live part to the buffer front, prepare(n) reserves room: nothing a reader sees changes
 ShiftFront ==
-  /\ Mode = "arr" /\ cons > 0
+  /\ mode = "arr" /\ cons > 0
   /\ UNCHANGED <<K, evars>>
   /\ XAnswer("front", [x |-> 0], [ret |-> "any", data |-> Data])
 Prepare(n) ==
-  /\ Mode = "arr" /\ (IsRaw(K) \/ n = 1)
+  /\ mode = "arr" /\ (IsRaw(K) \/ n = 1)
   /\ UNCHANGED <<K, evars>>
   /\ XAnswer("prepare", [n |-> n], [ret |-> "any", data |-> Data])
 
 EncInit ==
-  /\ K \in Kinds
+  /\ K \in (IF mode = "arr" THEN KindsA ELSE KindsE)
   /\ msg \in SeqsUpTo(Alpha, MaxMsg)
   /\ pre = 0 /\ out = <<>> /\ run = <<>> /\ code = 0 /\ acc = 0 /\ st = "run"
-  /\ cap \in {Sep(K) + c : c \in Caps}
-  /\ sess = <<>> /\ marks = <<>> /\ cons = 0 /\ left = MaxMsgs - 1
+  /\ cap \in (IF mode = "arr" THEN {Big} ELSE {Sep(K) + c : c \in Caps})      \* array path: room is the library's matter
+  /\ sess = <<>> /\ marks = <<>> /\ cons = 0 /\ left = (IF mode = "arr" THEN MaxMsgsA ELSE MaxMsgs) - 1
   /\ obs = [a |-> "xinit",
             arg |-> [kind |-> K.name, m |-> K.max, path |-> Path, cap |-> cap,
                      dl |-> DelimOf(K), how |-> IF IsText(K) THEN K.how ELSE "-", msg |-> msg],
@@ -267,7 +273,7 @@ EncNext ==
   /\ \/ \E k \in 1..MaxMsg : XPush(k)
      \/ \E g \in Grows : XGrow(g)
      \/ XTerm
-     \/ \E m \in NextSet : NextMsg(m)
+     \/ \E m \in (IF mode = "arr" THEN NextSetA ELSE NextSet) : NextMsg(m)
      \/ \E k \in DelKs : Delete(k)
      \/ \E n \in Shifts : Shift(n)
      \/ ShiftFront
@@ -308,8 +314,8 @@ Reset ==
   /\ XAnswer("reset", [x |-> 0], [ret |-> "ok", ctx |-> 0, chg_hi |-> -1])
 
 DecInit ==
-  /\ K \in Kinds
-  /\ stream \in DStreams
+  /\ K \in KindsD
+  /\ stream \in (IF mode = "size" THEN SStreams ELSE DStreams)
   /\ fedn = 0 /\ fs = 0 /\ lost = FALSE
   /\ \E sl \in DSlacks :
        /\ reg = [i \in 1..sl |-> D!Fill] /\ curr = sl
@@ -320,17 +326,19 @@ DecInit ==
   /\ sess = <<>> /\ marks = <<>> /\ cons = 0 /\ left = 0
 
 DecNext ==
-  /\ \/ \E k \in DFeeds : D!Feed(k)
-     \/ \E mis \in DMis : D!Call(mis)
-     \/ "peek" \in DOps /\ D!Peek
+  /\ \/ \E k \in (IF mode = "size" THEN {1} ELSE DFeeds) : D!Feed(k)
+     \/ \E mis \in (IF mode = "size" THEN {0} ELSE DMis) : D!Call(mis)
+     \/ mode = "dec" /\ "peek" \in DOps /\ D!Peek
      \/ \E k \in DGrants : D!Grant(k)
-     \/ "size" \in DOps /\ \E n \in DQs : SizeQuery(n)
-     \/ "reset" \in DOps /\ Reset
+     \/ mode = "dec" /\ "size" \in DOps /\ \E n \in DQs : SizeQuery(n)
+     \/ mode = "size" /\ \E n \in SQs : SizeQuery(n)
+     \/ mode = "dec" /\ "reset" \in DOps /\ Reset
   /\ UNCHANGED evars
 
 ---------------------------------------------------------------------------
-XInit == IF Mode = "dec" THEN DecInit ELSE EncInit
-XNext == IF Mode = "dec" THEN DecNext ELSE EncNext
+IsDec == mode \in {"dec", "size"}
+XInit == mode \in Modes /\ IF IsDec THEN DecInit ELSE EncInit
+XNext == (IF IsDec THEN DecNext ELSE EncNext) /\ UNCHANGED mode
 XSpec == XInit /\ [][XNext]_allvars
 
 ---------------------------------------------------------------------------
